@@ -1644,3 +1644,108 @@ def check_resolve(idx, problems, stats, known_hits):
                                  "built anew (%s)" % name, previous=cb, now=ca))
     return dict(v1=v1, v2=v2, v_ext=v_ext, v_ext_fresh=v_ext_fresh, v3=v3, fresh=vf, held_after_edit=held_after,
                 held_first=h1, counts=(c1, c2, c_ext, c3))
+
+
+# ------------------------------------------------------------------------------------------ the real CvxpyWrapper
+class ProblemRecorder(object):
+    """hooks cvxpy.Problem.solve (in the harness only, nothing in PEPit is patched): every Problem handed to the
+    solver is recorded (number of constraints, ids of its variables, sense), then solved as usual"""
+
+    def __enter__(self):
+        import cvxpy as cp
+        self.cp = cp
+        self.orig = cp.Problem.solve
+        self.records = []
+        rec, orig = self.records, self.orig
+
+        def hooked(prob, *a, **kw):
+            rec.append(dict(n_constraints=len(prob.constraints), var_ids=sorted(v.id for v in prob.variables()),
+                            sense=type(prob.objective).__name__))
+            return orig(prob, *a, **kw)
+
+        cp.Problem.solve = hooked
+        return self
+
+    def __exit__(self, *a):
+        self.cp.Problem.solve = self.orig
+
+
+HEUR_HISTORIES = [
+    # (model index | "extend" | heuristic-or-None for a solve) ...: same PEP re-solved, edits, and new PEPs
+    [("new", 0), ("solve", "trace"), ("solve", "logdet2"), ("solve", None), ("solve", "trace")],
+    [("new", 5), ("solve", None), ("solve", "trace"), ("new", 2), ("solve", "logdet2"), ("solve", "trace")],
+    [("new", 1), ("solve", "trace"), ("extend",), ("solve", "trace")],
+    [("new", 3), ("solve", "logdet1"), ("new", 4), ("solve", "trace"), ("new", 0), ("solve", "trace")],
+    [("new", 8), ("solve", "logdet2"), ("solve", "logdet2"), ("new", 11), ("solve", "trace"), ("solve", None),
+     ("solve", "logdet1")],
+    [("new", 7), ("solve", "trace"), ("extend",), ("solve", "logdet1"), ("new", 10), ("solve", "trace")],
+]
+
+
+def run_heuristic_histories(n_hist):
+    """real CvxpyWrapper, SCS on tiny models.  For every solve: the original problem has the rows the model predicts
+    from what was sent (G >> 0, one per scalar constraint, 1 + n^2 per LMI) over F, G and one M per LMI; every
+    heuristic problem of that solve has exactly ONE more constraint over the SAME variables.
+    Returns (cases for Model/Resolve.dump_cvx, problems, events)."""
+    cases, problems, events = [], [], []
+    for k, hist in enumerate(HEUR_HISTORIES[:n_hist]):
+        p = h = None
+        for j, ev in enumerate(hist):
+            if ev[0] == "new":
+                p, h = real_model(ev[1])
+                continue
+            if ev[0] == "extend":
+                extend_model(p, h)
+                continue
+            heur = ev[1]
+            with ProblemRecorder() as rec:
+                kw = dict(eps_abs=1e-7, eps_rel=1e-7)
+                if heur:
+                    kw["dimension_reduction_heuristic"] = heur
+                val = _quiet_solve(p, **kw)
+            recs = rec.records
+            sizes = [it.shape[0] if type(it).__name__ == "PSDMatrix" else 0
+                     for it in p.wrapper._list_of_constraints_sent_to_solver]
+            where = dict(generator="cvxpy-heuristic", history=k, event=j, heuristic=heur, model=h["info"]["kind"])
+            if not recs or val is None:
+                problems.append(dict(kind="real-solve-returned-none", **where))
+                continue
+            c0, v0 = recs[0]["n_constraints"], recs[0]["var_ids"]
+            hrecs = recs[1:]
+            events.append(dict(where, original=(c0, len(v0)), heuristic_problems=[(r["n_constraints"], len(r["var_ids"]))
+                                                                                 for r in hrecs]))
+            if bool(heur) != bool(hrecs):
+                problems.append(dict(kind="heuristic-solves-not-observed", n=len(hrecs), **where))
+            for r in hrecs:
+                if r["n_constraints"] != c0 + 1 or r["var_ids"] != v0:
+                    problems.append(dict(kind="heuristic-problem-is-not-the-original-plus-one-bound",
+                                         original_constraints=c0, heuristic_constraints=r["n_constraints"],
+                                         original_variables=len(v0), heuristic_variables=len(r["var_ids"]),
+                                         foreign_variables=len(set(r["var_ids"]) - set(v0)), **where))
+                    break
+            inp = "(%s, %s)" % (coq_list([coq_nat(n) for n in sizes]), "true" if hrecs else "false")
+            out = [c0, max(r["n_constraints"] for r in hrecs), len(v0)] if hrecs else [c0, len(v0)]
+            cases.append((inp, out))
+    return cases, problems, events
+
+
+CVX_RUN = ("fun c : list nat * bool => if snd c then dump_cvx (fst c) "
+           "else DL [DN (cvx_rows_sizes (fst c)); DN (cvx_vars_sizes (fst c))]")
+
+
+def stream_cvxpy_heuristic(tier):
+    n_hist = 4 if tier == "quick" else len(HEUR_HISTORIES)
+    cases, problems, events = run_heuristic_histories(n_hist)
+    bad = run_cases("cvx_heur", IMPORTS, CVX_RUN, cases, input_type="(list nat * bool)")
+    mism = [dict(kind="model-differs", generator="cvxpy-heuristic", case=cases[i][0], implementation=str(cases[i][1]),
+                 model=model_output(IMPORTS, CVX_RUN, cases[i][0])[:400]) for i in bad[:3]]
+    return dict(name="cvxpy-heuristic-problems", evaluations=len(cases), distinct_nontrivial=len(set(c[0] for c in cases)),
+                rule="histories of 2-5 solves on the REAL CvxpyWrapper (SCS on tiny models; trace / logdetN heuristics mixed "
+                     "with plain solves, the same PEP re-solved, edited, and new PEPs in the same process), every "
+                     "cvxpy.Problem handed to the solver recorded by a hook on cvxpy.Problem.solve: rows and variables of "
+                     "the original problem = Model/Resolve.cvx_rows_sizes / cvx_vars_sizes of what was sent, every "
+                     "heuristic problem = that + exactly one bound row over the same variables (cvx_heuristic_rows_sizes); "
+                     "one evaluation = one solve; distinct by sizes of the sent items",
+                n_mismatch=len(bad), mismatches=mism, problems=problems[:5], n_problems=len(problems),
+                samples=events[:3], distribution=dict(solves=len(cases), heuristic_solves=sum(1 for e in events if e["heuristic"]),
+                                                      heuristic_problems=sum(len(e["heuristic_problems"]) for e in events)))
